@@ -1,12 +1,12 @@
 # Per-property check configuration for ./check.
 # tests: list of Go test functions; per tier: number of rapid cases, shards (processes), average steps per history.
 
-def hist(name, q=300, t=3000, shards=14, steps=30, tsteps=40, qtimeout=600, ttimeout=3000):
+def hist(name, q=1000, t=30000, shards=14, steps=30, tsteps=40, qtimeout=900, ttimeout=7200):
     return {"name": name,
             "quick": {"checks": q, "shards": 1, "steps": steps, "timeout": qtimeout},
             "thorough": {"checks": t, "shards": shards, "steps": tsteps, "timeout": ttimeout}}
 
-def direct(name, q=2000, t=50000, shards=14, qtimeout=600, ttimeout=3000):
+def direct(name, q=2000, t=500000, shards=14, qtimeout=900, ttimeout=7200):
     return {"name": name,
             "quick": {"checks": q, "shards": 1, "timeout": qtimeout},
             "thorough": {"checks": t, "shards": shards, "timeout": ttimeout}}
@@ -29,22 +29,22 @@ CHECKS = {
     "C04": {"level": "exploration", "tests": [hist("TestC04")], "assumptions": COMMON_ASSUMPTIONS},
     "C05": {"level": "exploration", "tests": [
         det("TestC05Grid"),
-        direct("TestC05Random", q=100000, t=2000000), hist("TestC05History", t=1500)], "assumptions": COMMON_ASSUMPTIONS},
+        direct("TestC05Random", q=100000, t=20000000), hist("TestC05History")], "assumptions": COMMON_ASSUMPTIONS},
     "C06": {"level": "exploration", "tests": [hist("TestC06")], "assumptions": COMMON_ASSUMPTIONS},
     "C07": {"level": "exploration", "tests": [hist("TestC07")], "assumptions": COMMON_ASSUMPTIONS},
     "C08": {"level": "exploration", "tests": [hist("TestC08")], "assumptions": COMMON_ASSUMPTIONS},
-    "C09": {"level": "exploration", "tests": [hist("TestC09"), hist("TestC09Twin", q=200, t=1500)], "assumptions": COMMON_ASSUMPTIONS},
-    "C10": {"level": "exploration", "tests": [hist("TestC10"), hist("TestC10Twin", q=200, t=1500)], "assumptions": COMMON_ASSUMPTIONS},
-    "C11": {"level": "exploration", "tests": [hist("TestC11"), hist("TestC11Twin", q=200, t=1500)], "assumptions": COMMON_ASSUMPTIONS},
-    "C12": {"level": "exploration", "tests": [hist("TestC12"), hist("TestC12Twin", q=200, t=1500)], "assumptions": COMMON_ASSUMPTIONS},
-    "C13": {"level": "exploration", "tests": [direct("TestC13", q=20000, t=200000), hist("TestC13History", t=1500)], "assumptions": COMMON_ASSUMPTIONS},
-    "C14": {"level": "exploration", "tests": [det("TestC14"), direct("TestC14Random", q=20000, t=300000)], "assumptions": ["the property sentence is restated independently in harness/ref/ref.go"]},
-    "C15": {"level": "exploration", "tests": [direct("TestC15Direct", q=3000, t=50000), hist("TestC15History")], "assumptions": COMMON_ASSUMPTIONS},
-    "C16": {"level": "exploration", "tests": [det("TestC16Validation"), direct("TestC16ValidationRandom", q=20000, t=300000), direct("TestC16Decode", q=2000, t=30000),
+    "C09": {"level": "exploration", "tests": [hist("TestC09"), hist("TestC09Twin", q=400, t=10000)], "assumptions": COMMON_ASSUMPTIONS},
+    "C10": {"level": "exploration", "tests": [hist("TestC10"), hist("TestC10Twin", q=400, t=10000)], "assumptions": COMMON_ASSUMPTIONS},
+    "C11": {"level": "exploration", "tests": [hist("TestC11"), hist("TestC11Twin", q=400, t=10000)], "assumptions": COMMON_ASSUMPTIONS},
+    "C12": {"level": "exploration", "tests": [hist("TestC12"), hist("TestC12Twin", q=400, t=10000)], "assumptions": COMMON_ASSUMPTIONS},
+    "C13": {"level": "exploration", "tests": [direct("TestC13", q=20000, t=2000000), hist("TestC13History", q=500, t=15000)], "assumptions": COMMON_ASSUMPTIONS},
+    "C14": {"level": "exploration", "tests": [det("TestC14"), direct("TestC14Random", q=20000, t=3000000)], "assumptions": ["the property sentence is restated independently in harness/ref/ref.go"]},
+    "C15": {"level": "exploration", "tests": [direct("TestC15Direct", q=3000, t=300000), hist("TestC15History")], "assumptions": COMMON_ASSUMPTIONS},
+    "C16": {"level": "exploration", "tests": [det("TestC16Validation"), direct("TestC16ValidationRandom", q=20000, t=3000000), direct("TestC16Decode", q=2000, t=200000),
                                               {"name": "FuzzC16Decode", "fuzz": True, "quick": None, "thorough": {"checks": 0, "shards": 1, "timeout": 400, "fuzztime": "120s"}}],
             "assumptions": ["cmd/main.go's validation gate is taken on reading; validator and decoder are checked as functions"]},
-    "C17": {"level": "exploration", "tests": [direct("TestC17", q=3000, t=40000)], "assumptions": COMMON_ASSUMPTIONS},
-    "C18": {"level": "fault_enumeration", "tests": [direct("TestC18", q=60, t=400), direct("TestC18Consecutive", q=300, t=3000), hist("TestC18History", t=1500)], "assumptions": COMMON_ASSUMPTIONS},
-    "C19": {"level": "fault_enumeration", "tests": [direct("TestC19Direct", q=3000, t=40000), hist("TestC19History")], "assumptions": COMMON_ASSUMPTIONS},
-    "C20": {"level": "fault_enumeration", "tests": [hist("TestC20"), hist("TestC20Enum", q=60, t=300, steps=20, tsteps=25)], "assumptions": COMMON_ASSUMPTIONS},
+    "C17": {"level": "exploration", "tests": [direct("TestC17", q=3000, t=400000)], "assumptions": COMMON_ASSUMPTIONS},
+    "C18": {"level": "fault_enumeration", "tests": [direct("TestC18", q=60, t=2500), direct("TestC18Consecutive", q=300, t=30000), hist("TestC18History", q=500, t=15000)], "assumptions": COMMON_ASSUMPTIONS},
+    "C19": {"level": "fault_enumeration", "tests": [direct("TestC19Direct", q=3000, t=400000), hist("TestC19History")], "assumptions": COMMON_ASSUMPTIONS},
+    "C20": {"level": "fault_enumeration", "tests": [hist("TestC20"), hist("TestC20Enum", q=100, t=1500, steps=20, tsteps=25)], "assumptions": COMMON_ASSUMPTIONS},
 }
